@@ -9,7 +9,7 @@ import OpusModel.SilkCoreSynth
   they are when `silk_decode_frame` returns.
 -/
 namespace Opus.SilkCore
-open Opus Opus.SilkParams Opus.Gen
+open Opus Opus.SilkParams Opus.Gen Opus.Frozen
 
 /-- decode_frame.c:104-107: `memmove( outBuf, &outBuf[ frame_length ], mv_len )`, `memcpy( &outBuf[ mv_len ], pOut, frame_length )`
     with `mv_len = ltp_mem_length - frame_length`. -/
